@@ -165,6 +165,9 @@ func Property() runner.Property {
 			W := func(k string, after int) fakeapi.WatchFault { return fakeapi.WatchFault{Kind: k, After: after} }
 			mk := func(name string, c ctl.Cfg) runner.Sc {
 				c.Name, c.Period, c.Tree, c.Mode, c.Bound = name, P, sub, "S2", d
+				if c.Bufsiz > 0 {
+					c.Tree = nil
+				}
 				if c.ReadAt == 0 {
 					c.ReadAt = 8 * time.Second
 				}
@@ -187,6 +190,11 @@ func Property() runner.Property {
 				mk("recreate-around-relist/close@1", ctl.Cfg{Pre: pre, Hist: []ctl.Mut{{Op: "del", Name: "a", Delay: 3 * time.Second}, {Op: "set", Name: "a", Labels: "l=1"}}, WatchFaults: map[int]fakeapi.WatchFault{1: W("close", 1)}, ReadAt: 5 * time.Second}),
 				mk("watch-blocks-forever/late", ctl.Cfg{Pre: pre, Hist: late, DefaultWatch: W("block", 0)}),
 			}
+			// overflowed events: every event buffer holds one event only, so bursts are dropped somewhere on the way;
+			// the next relist must repair the cache (no subscriber: its own buffer would overflow legitimately)
+			burst := []ctl.Mut{{Op: "set", Name: "a", Labels: "l=0", Delay: time.Second}, {Op: "set", Name: "b", Labels: "l=1"}, {Op: "set", Name: "a", Labels: "l=1"}, {Op: "del", Name: "b"}}
+			ov := mk("overflow/bufsiz1/burst4", ctl.Cfg{Pre: pre, Hist: burst, Bufsiz: 1})
+			out = append(out, ov)
 			if tier == "thorough" {
 				out = append(out,
 					mk("watch-bookmark@0/h4", ctl.Cfg{Filter: 2, Pre: pre, Hist: h, WatchFaults: map[int]fakeapi.WatchFault{1: W("bookmark", 0)}}),
